@@ -100,7 +100,7 @@ theorem lineLen_eq (S : Bytes) :
 /-- one format: the Model delivers what the Spec prescribes at the cursor, and the cursor moves alike. -/
 theorem readOne_sim {R : Nat} (hR : 0 < R) {f : LFile} (h : Readable f) (fm : Fmt)
     (hcr : fm = .line → (13 : UInt8) ∉ f.disk)
-    (hnum : fm = .num → numProved (f.disk.drop (cursor f)) = true) (hstr : ∀ s, fm ≠ .str s) :
+    (hnum : fm = .num → FileSpec.numSpecified (f.disk.drop (cursor f)) = true) (hstr : ∀ s, fm ≠ .str s) :
     ∃ f' out, Reads f f' out ∧
       readOne R f fm = (f', toOut (FileSpec.readFmt f.disk (cursor f) fm).1) ∧
       (FileSpec.readFmt f.disk (cursor f) fm).2 = cursor f' := by
@@ -168,37 +168,17 @@ theorem readOne_sim {R : Nat} (hR : 0 < R) {f : LFile} (h : Readable f) (fm : Fm
   | num =>
     have hg := hnum rfl
     rw [← hS] at hg
-    obtain ⟨f1, o1, hr1, he1, hc1⟩ := fscanNumber_sim hR h hg
+    obtain ⟨f1, o1, hr1, he1, hc1⟩ := readBufioNumber_sim hR h hg
     exact ⟨f1, o1, hr1, by simpa only [readOne] using he1, hc1⟩
   | str s => exact absurd rfl (hstr s)
 
-/-- the formats whose reading is PROVED to agree with the Spec, walked as the Spec walks them: `count`, `*l`, `*a`
-    anywhere; `*n` on the texts of `numProved`; a format string that liolib rejects (other than the lone star:
-    open finding C19-read-lone-star).  Format strings spelling out "*l" / "*a" / "*n" are left to the engine, which
-    hands them over as `line` / `all` / `num`. -/
-def fmtsProved (b : Bytes) (cur : Nat) : List Fmt → Bool
-  | [] => true
-  | .str s :: _ => decide (FileSpec.classify (.str s) = .invalid) && decide (s ≠ [42])
-  | .num :: fs =>
-    numProved (b.drop cur) &&
-    (match FileSpec.readFmt b cur .num with
-     | (none, _) => true
-     | (some _, c) => fmtsProved b c fs)
-  | g :: fs =>
-    (match FileSpec.readFmt b cur g with
-     | (none, _) => true
-     | (some _, c) => fmtsProved b c fs)
-
-/-- an invalid format string (not the lone star) raises at once, whatever follows. -/
+/-- an invalid format string raises at once, whatever follows. -/
 theorem readLoop_invalid (R : Nat) (f : LFile) (s : Bytes) (rest : List Fmt)
-    (hi : FileSpec.classify (.str s) = .invalid) (hs : s ≠ [42]) :
+    (hi : FileSpec.classify (.str s) = .invalid) :
     readLoop R f (expandFmt (.str s) ++ rest) = (f, [], .raise) := by
   match s with
   | [] => simp [expandFmt, readLoop, readOne]
-  | [c] =>
-    by_cases hc : c = 42
-    · subst hc; exact absurd rfl hs
-    · simp [expandFmt, hc, readLoop, readOne]
+  | [c] => simp [expandFmt, readLoop, readOne]
   | c :: c2 :: t =>
     by_cases hc : c = 42
     · subst hc
@@ -213,19 +193,41 @@ theorem readLoop_invalid (R : Nat) (f : LFile) (s : Bytes) (rest : List Fmt)
       simp [expandFmt, optFmt, h2.1, h2.2.1, h2.2.2, readLoop, readOne]
     · simp [expandFmt, hc, readLoop, readOne]
 
-theorem classify_plain {g : Fmt} (h : ∀ s, g ≠ .str s) : FileSpec.classify g = .is g := by
-  cases g with
-  | str s => exact absurd rfl (h s)
-  | _ => rfl
+/-- a format the manual defines, however it is written ("*l" as `line` or as the string): the Model serves the
+    same primitive format -/
+theorem expand_classify {fm g : Fmt} (h : FileSpec.classify fm = .is g) : expandFmt fm = [g] ∧ ∀ s, g ≠ .str s := by
+  cases fm with
+  | str s =>
+    match s with
+    | [] => simp [FileSpec.classify] at h
+    | [_] => simp [FileSpec.classify] at h
+    | [a, c] =>
+      simp only [FileSpec.classify] at h
+      by_cases ha : a = 42
+      · subst ha
+        by_cases h1 : c = 110
+        · subst h1; simp at h; subst h; exact ⟨rfl, fun s e => by cases e⟩
+        · by_cases h2 : c = 108
+          · subst h2; simp at h; subst h; exact ⟨rfl, fun s e => by cases e⟩
+          · by_cases h3 : c = 97
+            · subst h3; simp at h; subst h; exact ⟨rfl, fun s e => by cases e⟩
+            · simp [h1, h2, h3] at h
+      · simp [ha] at h
+    | a :: c :: d :: t =>
+      simp only [FileSpec.classify] at h
+      split at h <;> cases h
+  | count n => simp only [FileSpec.classify] at h; cases h; exact ⟨rfl, fun s e => by cases e⟩
+  | line => simp only [FileSpec.classify] at h; cases h; exact ⟨rfl, fun s e => by cases e⟩
+  | all => simp only [FileSpec.classify] at h; cases h; exact ⟨rfl, fun s e => by cases e⟩
+  | num => simp only [FileSpec.classify] at h; cases h; exact ⟨rfl, fun s e => by cases e⟩
 
-theorem expandFmt_plain {g : Fmt} (h : ∀ s, g ≠ .str s) : expandFmt g = [g] := by
-  cases g with
-  | str s => exact absurd rfl (h s)
-  | _ => rfl
-
+/-- **the format loop**: on every call whose meaning the Spec fixes (`readSpecified`: formats the manual defines or
+    liolib rejects; every `*n` that is reached meets a specified text) the Model returns the Spec's values, raises
+    where the Spec raises, and moves the cursor alike. -/
 theorem readLoop_sim {R : Nat} (hR : 0 < R) :
-    ∀ (fs : List Fmt) {f : LFile}, Readable f → (Fmt.line ∈ fs → (13 : UInt8) ∉ f.disk) →
-      fmtsProved f.disk (cursor f) fs = true →
+    ∀ (fs : List Fmt) {f : LFile}, Readable f →
+      ((∃ fm ∈ fs, FileSpec.classify fm = .is .line) → (13 : UInt8) ∉ f.disk) →
+      FileSpec.readSpecified f.disk (cursor f) fs = true →
       ∃ f' out, Reads f f' out ∧
         readLoop R f (fs.flatMap expandFmt) =
           (f', (FileSpec.readFmts f.disk (cursor f) fs).1,
@@ -236,48 +238,48 @@ theorem readLoop_sim {R : Nat} (hR : 0 < R) :
   | nil => intro f h _ _; exact ⟨f, [], Reads.refl h.inv, rfl, rfl⟩
   | cons fm fs ih =>
     intro f h hcr hp
-    by_cases hstr : ∃ s, fm = .str s
-    · obtain ⟨s, rfl⟩ := hstr
-      simp only [fmtsProved, Bool.and_eq_true, decide_eq_true_eq] at hp
-      refine ⟨f, [], Reads.refl h.inv, ?_, ?_⟩
-      · rw [List.flatMap_cons, readLoop_invalid R f s _ hp.1 hp.2]
-        simp [FileSpec.readFmts, hp.1]
-      · simp [FileSpec.readFmts, hp.1]
-    · have hstr' : ∀ s, fm ≠ .str s := fun s e => hstr ⟨s, e⟩
-      have hnum : fm = .num → numProved (f.disk.drop (cursor f)) = true := by
-        intro e; subst e
-        simp only [fmtsProved, Bool.and_eq_true] at hp
-        exact hp.1
-      have hrest : match FileSpec.readFmt f.disk (cursor f) fm with
-          | (none, _) => True
-          | (some _, c) => fmtsProved f.disk c fs = true := by
-        cases fm with
-        | str s => exact absurd rfl (hstr' s)
-        | num =>
-          simp only [fmtsProved, Bool.and_eq_true] at hp
-          have := hp.2
-          split at this <;> simp_all
-        | count n => simp only [fmtsProved] at hp; split at hp <;> simp_all
-        | line => simp only [fmtsProved] at hp; split at hp <;> simp_all
-        | all => simp only [fmtsProved] at hp; split at hp <;> simp_all
-      obtain ⟨f1, o1, hr1, he1, hc1⟩ := readOne_sim hR h fm (fun e => hcr (by simp [e])) hnum hstr'
-      rcases hq : FileSpec.readFmt f.disk (cursor f) fm with ⟨v, c⟩
-      rw [hq] at he1 hc1 hrest
+    rcases hcl : FileSpec.classify fm with g | _ | _
+    · -- a defined format
+      obtain ⟨hex, hstr'⟩ := expand_classify hcl
+      simp only [FileSpec.readSpecified, hcl, Bool.and_eq_true, Bool.or_eq_true, decide_eq_true_eq] at hp
+      have hnum : g = .num → FileSpec.numSpecified (f.disk.drop (cursor f)) = true := by
+        intro e
+        rcases hp.1 with h1 | h1
+        · exact absurd e (by simpa using h1)
+        · exact h1
+      obtain ⟨f1, o1, hr1, he1, hc1⟩ := readOne_sim hR h g
+        (fun e => hcr ⟨fm, List.mem_cons_self .., by rw [hcl, e]⟩) hnum hstr'
+      rcases hq : FileSpec.readFmt f.disk (cursor f) g with ⟨v, c⟩
+      rw [hq] at he1 hc1
+      have hrest := hp.2
+      rw [hq] at hrest
       simp only at he1 hc1 hrest
-      rw [List.flatMap_cons, expandFmt_plain hstr', List.singleton_append]
+      rw [List.flatMap_cons, hex, List.singleton_append]
       cases v with
       | none =>
         refine ⟨f1, o1, hr1, ?_, ?_⟩
-        · simp [readLoop, he1, toOut, FileSpec.readFmts, classify_plain hstr', hq]
-        · simp [FileSpec.readFmts, classify_plain hstr', hq, hc1]
+        · simp [readLoop, he1, toOut, FileSpec.readFmts, hcl, hq]
+        · simp [FileSpec.readFmts, hcl, hq, hc1]
       | some d =>
         have hd : f1.disk = f.disk := hr1.frame.1
-        obtain ⟨f2, o2, hr2, he2, hc2⟩ := ih (h.of_reads hr1) (fun hm => by rw [hd]; exact hcr (by simp [hm]))
+        obtain ⟨f2, o2, hr2, he2, hc2⟩ := ih (h.of_reads hr1)
+          (fun ⟨fm', hm, hc'⟩ => by rw [hd]; exact hcr ⟨fm', List.mem_cons_of_mem _ hm, hc'⟩)
           (by rw [hd, ← hc1]; exact hrest)
         rw [hd, ← hc1] at he2 hc2
         refine ⟨f2, o1 ++ o2, hr1.trans hr2, ?_, ?_⟩
-        · simp [readLoop, he1, toOut, FileSpec.readFmts, classify_plain hstr', hq, he2]
-        · simp [FileSpec.readFmts, classify_plain hstr', hq, hc2]
+        · simp [readLoop, he1, toOut, FileSpec.readFmts, hcl, hq, he2]
+        · simp [FileSpec.readFmts, hcl, hq, hc2]
+    · -- an invalid format: both raise
+      have hs : ∃ s, fm = .str s := by
+        cases fm with
+        | str s => exact ⟨s, rfl⟩
+        | _ => simp [FileSpec.classify] at hcl
+      obtain ⟨s, rfl⟩ := hs
+      refine ⟨f, [], Reads.refl h.inv, ?_, ?_⟩
+      · rw [List.flatMap_cons, readLoop_invalid R f s _ hcl]
+        simp [FileSpec.readFmts, hcl]
+      · simp [FileSpec.readFmts, hcl]
+    · simp [FileSpec.readSpecified, hcl] at hp
 
 /-! ### the simulation, operation by operation -/
 
@@ -288,7 +290,7 @@ def pendNext (pend : Bool) (o : Op) : Bool :=
   | _ => if FileSpec.isInput o then true else if FileSpec.isSeparator o then false else pend
 
 def usesLine : Op → Bool
-  | .read fs => fs = [] ∨ Fmt.line ∈ fs
+  | .read fs => fs = [] ∨ ∃ fm ∈ fs, FileSpec.classify fm = .is .line
   | .iter => true
   | _ => false
 
@@ -398,10 +400,10 @@ theorem sim_wr {pend : Bool} {f : LFile} (h : Sim pend f) :
     | true => rfl
     | false => have := h.inv.wcap.mpr hq; rw [hw] at this; cases this
 
-/-- the operations whose result is PROVED to agree with the Spec in the state `s` (beyond the discipline, the
-    unbuffered writer and the CR guard): every read walks formats of `fmtsProved`. -/
+/-- the operations whose meaning the Spec fixes in the state `s`: every read is `readSpecified` (this is a guard of
+    the SPEC — what the manual / C leave open —, not a proof-effort guard: all of it is proved). -/
 def opProved (s : Stream) : Op → Bool
-  | .read fs => s.closed || !s.canRead || fmtsProved s.bytes s.cur (if fs = [] then [.line] else fs)
+  | .read fs => s.closed || !s.canRead || FileSpec.readSpecified s.bytes s.cur (if fs = [] then [.line] else fs)
   | _ => true
 
 theorem read_sim {R : Nat} (hR : 0 < R) {pend : Bool} {f : LFile} (h : Sim pend f) (hc : f.closed = false)
@@ -412,12 +414,14 @@ theorem read_sim {R : Nat} (hR : 0 < R) {pend : Bool} {f : LFile} (h : Sim pend 
     Sim true (fileReadAux R f fs).1 := by
   have hac : (absOf f).closed = false := hc
   by_cases hr : f.hasReader = true
-  · have hcr' : Fmt.line ∈ (if fs = [] then [Fmt.line] else fs) → (13 : UInt8) ∉ f.disk := by
+  · have hcr' : (∃ fm ∈ (if fs = [] then [Fmt.line] else fs), FileSpec.classify fm = .is .line) → (13 : UInt8) ∉ f.disk := by
       intro hm; apply hcr
       by_cases he : fs = []
       · simp [usesLine, he]
-      · simp only [he, if_false] at hm; simp [usesLine, hm]
-    have hfp' : fmtsProved f.disk (cursor f) (if fs = [] then [Fmt.line] else fs) = true := by
+      · simp only [he, if_false] at hm
+        simp only [usesLine, decide_eq_true_eq]
+        exact Or.inr hm
+    have hfp' : FileSpec.readSpecified f.disk (cursor f) (if fs = [] then [Fmt.line] else fs) = true := by
       simpa [opProved, absOf, hc, hr] using hfp
     obtain ⟨f', out, hrd, he, hcur⟩ := readLoop_sim hR (if fs = [] then [Fmt.line] else fs) (sim_readable h hc hr) hcr' hfp'
     have hcan : (absOf f).canRead = true := hr
@@ -664,7 +668,8 @@ def plainReads (ops : List Op) : Prop := ∀ o ∈ ops, plainOp o = true
 
 instance (ops : List Op) : Decidable (plainReads ops) := by unfold plainReads; infer_instance
 
-theorem fmtsProved_plain (b : Bytes) : ∀ (fs : List Fmt) (cur : Nat), fs.all isPlainFmt = true → fmtsProved b cur fs = true := by
+theorem readSpecified_plain (b : Bytes) : ∀ (fs : List Fmt) (cur : Nat), fs.all isPlainFmt = true →
+    FileSpec.readSpecified b cur fs = true := by
   intro fs
   induction fs with
   | nil => intro _ _; rfl
@@ -674,16 +679,16 @@ theorem fmtsProved_plain (b : Bytes) : ∀ (fs : List Fmt) (cur : Nat), fs.all i
     cases g with
     | num => simp [isPlainFmt] at h
     | str s => simp [isPlainFmt] at h
-    | count n => simp only [fmtsProved]; split <;> simp_all
-    | line => simp only [fmtsProved]; split <;> simp_all
-    | all => simp only [fmtsProved]; split <;> simp_all
+    | count n => simp only [FileSpec.readSpecified, FileSpec.classify]; split <;> simp_all
+    | line => simp only [FileSpec.readSpecified, FileSpec.classify]; split <;> simp_all
+    | all => simp only [FileSpec.readSpecified, FileSpec.classify]; split <;> simp_all
 
 theorem opProved_plain (s : Stream) {o : Op} (h : plainOp o = true) : opProved s o = true := by
   cases o with
   | read fs =>
     simp only [plainOp] at h
     simp only [opProved, Bool.or_eq_true]
-    refine Or.inr (fmtsProved_plain _ _ _ ?_)
+    refine Or.inr (readSpecified_plain _ _ _ ?_)
     by_cases he : fs = []
     · simp [he, isPlainFmt]
     · simpa [he] using h
